@@ -309,8 +309,9 @@ type importModel struct {
 	used      map[string]map[string]bool // unbound selector base name -> selected names
 	bindings  map[string][]string        // effective name -> import keys ("name path") binding it
 	blank     []string                   // blank imports
-	mustAdd   []string                   // paths the formatter has to add
-	mayAdd    map[string]bool
+	mustAdd   [][]string                 // per unbound name with a candidate exposing every used selector: import keys of all justified candidates
+	mayAdd    map[string]bool            // import keys of every justified candidate (exposes at least one used selector of an unbound name)
+	choices   int                        // number of unbound names with >= 2 justified candidates
 	ambiguous bool
 }
 
@@ -385,31 +386,47 @@ func buildModel(f *ast.File, k knowledge, exports func(gnofmt.Package) map[strin
 		}
 		m.bindings[name] = append(m.bindings[name], key)
 	}
-	for name, sels := range m.used {
+	var names []string
+	for name := range m.used {
+		names = append(names, name)
+	}
+	sort.Strings(names)
+	for _, name := range names {
+		sels := m.used[name]
 		if len(m.bindings[name]) > 0 {
 			continue
 		}
+		var just []string
+		full := false
 		for _, cand := range k.ResolveName(name) {
 			ex := exports(cand)
-			hit := false
+			hits := 0
 			for s := range sels {
 				if ex[s] {
-					hit = true
+					hits++
 				}
 			}
-			if hit {
-				m.mustAdd = append(m.mustAdd, cand.Path())
-				m.mayAdd[" "+strconv.Quote(cand.Path())] = true
-				break
+			if hits > 0 {
+				key := " " + strconv.Quote(cand.Path())
+				just = append(just, key)
+				m.mayAdd[key] = true
+			}
+			if hits == len(sels) {
+				full = true
 			}
 		}
+		if len(just) >= 2 {
+			m.choices++
+		}
+		if full {
+			m.mustAdd = append(m.mustAdd, just)
+		}
 	}
-	sort.Strings(m.mustAdd)
 	return m
 }
 
 // returns "" or a description of the first broken rule
-func (m *importModel) judge(before, after []string) string {
+func (m *importModel) judge(before, after []string) (kind, msg string) {
 	has := func(l []string, k string) bool {
 		i := sort.SearchStrings(l, k)
 		return i < len(l) && l[i] == k
@@ -424,28 +441,32 @@ func (m *importModel) judge(before, after []string) string {
 			continue
 		}
 		if !has(after, b[0]) {
-			return fmt.Sprintf("import %q is used (selector on %q) but was removed", b[0], name)
+			return "used-import-removed", fmt.Sprintf("import %q is used (selector on %q) but was removed", b[0], name)
 		}
 	}
 	// (b) blank imports survive
 	for _, k := range m.blank {
 		if !has(after, k) {
-			return fmt.Sprintf("blank import %q was removed", k)
+			return "blank-import-removed", fmt.Sprintf("blank import %q was removed", k)
 		}
 	}
 	// (c) everything new is justified
 	for _, k := range after {
 		if !has(before, k) && !m.mayAdd[k] {
-			return fmt.Sprintf("import %q was added but the model has no unbound selector that resolves to it", k)
+			return "unjustified-import-added", fmt.Sprintf("import %q was added but the model has no unbound selector that resolves to it", k)
 		}
 	}
 	// (d) everything resolvable is added
-	for _, p := range m.mustAdd {
-		if !has(after, " "+strconv.Quote(p)) {
-			return fmt.Sprintf("selector base resolvable to %q is unbound, but the import was not added", p)
+	for _, just := range m.mustAdd {
+		found := false
+		for _, k := range just {
+			found = found || has(after, k)
+		}
+		if !found {
+			return "resolvable-import-not-added", fmt.Sprintf("an unbound selector base is resolvable to %q (exposes every selector used), but no such import was added", just)
 		}
 	}
-	return ""
+	return "", ""
 }
 
 func sortedCopy(a []string) []string {
@@ -500,6 +521,120 @@ func (t *tally) flush() {
 
 var nFormatted atomic.Int64
 
+// Violations are aggregated per class (failure kind + entry point + root-cause signature of the input); each class is
+// reported once, with its minimal failing input and the number of failing inputs.
+type classRec struct {
+	n      int64
+	label  string
+	src    string
+	detail map[string]any
+}
+
+var (
+	classMu sync.Mutex
+	classes = map[string]*classRec{}
+)
+
+func report(class, label string, src []byte, detail map[string]any) {
+	classMu.Lock()
+	defer classMu.Unlock()
+	c := classes[class]
+	if c == nil {
+		c = &classRec{}
+		classes[class] = c
+	}
+	c.n++
+	if c.n == 1 || len(src) < len(c.src) || (len(src) == len(c.src) && label < c.label) {
+		c.label, c.src, c.detail = label, string(src), detail
+	}
+}
+
+func flushClasses() {
+	var keys []string
+	for k := range classes {
+		keys = append(keys, k)
+	}
+	sort.Strings(keys)
+	for _, k := range keys {
+		c := classes[k]
+		r.Violation(k, map[string]any{"class": k, "failing_inputs_in_class": c.n, "minimal_input": c.src, "minimal_label": c.label, "detail": c.detail})
+		fmt.Printf("  class %s: %d failing inputs; minimal: %q\n", k, c.n, c.src)
+	}
+}
+
+// signature of the input for classing: "dup-import-binding" when two import specs bind the same name (not a valid
+// program), "comment-in-import-decl" when a comment sits on a line spanned by an import declaration.
+func signature(fx *ast.File, res gnofmt.Resolver) string {
+	names := map[string]int{}
+	dup := false
+	for _, is := range fx.Imports {
+		path, _ := strconv.Unquote(is.Path.Value)
+		name := lastElem(path)
+		if p := res.ResolvePath(path); p != nil {
+			name = p.Name()
+		}
+		if is.Name != nil {
+			if is.Name.Name == "_" {
+				continue
+			}
+			name = is.Name.Name
+		}
+		names[name]++
+		if names[name] > 1 {
+			dup = true
+		}
+	}
+	var sig []string
+	if dup {
+		sig = append(sig, "dup-import-binding")
+	}
+	// an imported name whose first unresolved occurrence is not the base of a selector (not a valid program either)
+	selBase := map[*ast.Ident]bool{}
+	ast.Inspect(fx, func(n ast.Node) bool {
+		if se, ok := n.(*ast.SelectorExpr); ok {
+			if id, ok := se.X.(*ast.Ident); ok {
+				selBase[id] = true
+			}
+		}
+		return true
+	})
+	seen := map[string]bool{}
+	for _, u := range fx.Unresolved {
+		if seen[u.Name] {
+			continue
+		}
+		seen[u.Name] = true
+		if names[u.Name] > 0 && !selBase[u] {
+			sig = append(sig, "pkgname-first-used-outside-selector")
+			break
+		}
+	}
+	return strings.Join(sig, "+")
+}
+
+func commentInImportDecl(src []byte) bool {
+	fs := token.NewFileSet()
+	f, err := parser.ParseFile(fs, fname, src, parser.ParseComments)
+	if err != nil {
+		return false
+	}
+	for _, d := range f.Decls {
+		g, ok := d.(*ast.GenDecl)
+		if !ok || g.Tok != token.IMPORT {
+			continue
+		}
+		lo, hi := fs.Position(g.Pos()).Line, fs.Position(g.End()).Line
+		for _, cg := range f.Comments {
+			for _, c := range cg.List {
+				if l := fs.Position(c.Pos()).Line; l >= lo && l <= hi {
+					return true
+				}
+			}
+		}
+	}
+	return false
+}
+
 func clip(s string) string {
 	if len(s) > 4000 {
 		return s[:4000] + "\n...(clipped)"
@@ -511,7 +646,17 @@ func clip(s string) string {
 func checkOne(e *env, entry, label string, src []byte, fx *ast.File, t *tally) {
 	t.n++
 	nFormatted.Add(1)
-	key := func(what string) string { return what + ":" + entry + ":" + label }
+	sig := signature(fx, e.res)
+	violation := func(what string, d map[string]any) {
+		class := what + ":" + entry
+		if sig != "" {
+			class += ":" + sig
+		}
+		if what == "nondeterministic-output" && commentInImportDecl(src) {
+			class += ":comment-in-import-decl"
+		}
+		report(class, label, src, d)
+	}
 	det := func(extra map[string]any) map[string]any {
 		d := map[string]any{"entry": entry, "label": label, "src": string(src)}
 		for k, v := range extra {
@@ -521,7 +666,7 @@ func checkOne(e *env, entry, label string, src []byte, fx *ast.File, t *tally) {
 	}
 	y, err, pan := runFmt(e, entry, src)
 	if pan != nil {
-		r.Violation(key("panic"), det(map[string]any{"panic": fmt.Sprint(pan)}))
+		violation("panic", det(map[string]any{"panic": fmt.Sprint(pan)}))
 		return
 	}
 	// lazily computed go/format behaviour on the same input
@@ -536,16 +681,20 @@ func checkOne(e *env, entry, label string, src []byte, fx *ast.File, t *tally) {
 		return g1, gerr
 	}
 	if err != nil {
-		if _, ge := gofmt(); ge != nil {
+		if g, ge := gofmt(); ge != nil {
 			t.add("inherited_format_error")
 			return
+		} else if _, pe := parseSrc(g); pe != nil {
+			// go/printer itself emits text that no longer parses (gnofmt notices because it re-parses, and refuses)
+			t.add("inherited_printer_output_unparseable")
+			return
 		}
-		r.Violation(key("fmt-error"), det(map[string]any{"error": err.Error()}))
+		violation("fmt-error", det(map[string]any{"error": err.Error()}))
 		return
 	}
 	fy, perr := parseSrc(y)
 	if perr != nil {
-		r.Violation(key("output-does-not-parse"), det(map[string]any{"out": clip(string(y)), "error": perr.Error()}))
+		violation("output-does-not-parse", det(map[string]any{"out": clip(string(y)), "error": perr.Error()}))
 		return
 	}
 	if bytes.Equal(y, src) {
@@ -559,7 +708,7 @@ func checkOne(e *env, entry, label string, src []byte, fx *ast.File, t *tally) {
 	y2, err2, pan2 := runFmt(e, entry, y)
 	switch {
 	case pan2 != nil || err2 != nil:
-		r.Violation(key("second-pass-fails"), det(map[string]any{"out": clip(string(y)), "error": fmt.Sprint(err2, pan2)}))
+		violation("second-pass-fails", det(map[string]any{"out": clip(string(y)), "error": fmt.Sprint(err2, pan2)}))
 		return
 	case !bytes.Equal(y2, y):
 		// inherited iff go/format is not a fixpoint on this input either
@@ -574,7 +723,7 @@ func checkOne(e *env, entry, label string, src []byte, fx *ast.File, t *tally) {
 		if inherited {
 			t.add("inherited_not_idempotent")
 		} else {
-			r.Violation(key("not-idempotent"), det(map[string]any{"pass1": clip(string(y)), "pass2": clip(string(y2))}))
+			violation("not-idempotent", det(map[string]any{"pass1": clip(string(y)), "pass2": clip(string(y2))}))
 			return
 		}
 	default:
@@ -620,7 +769,7 @@ func checkOne(e *env, entry, label string, src []byte, fx *ast.File, t *tally) {
 		if inheritedDecls() {
 			t.add("inherited_ast_change")
 		} else {
-			r.Violation(key("ast-changed"), det(map[string]any{"out": clip(string(y)), "ast_in": clip(nx.decls), "ast_out": clip(ny.decls), "ast_gofmt": gofmtNormals()}))
+			violation("ast-changed", det(map[string]any{"out": clip(string(y)), "ast_in": clip(nx.decls), "ast_out": clip(ny.decls), "ast_gofmt": gofmtNormals()}))
 			return
 		}
 	} else {
@@ -631,13 +780,13 @@ func checkOne(e *env, entry, label string, src []byte, fx *ast.File, t *tally) {
 	importsChanged := !sameStrings(uniq(nx.imports), uniq(ny.imports))
 	if entry == entryLayout {
 		if importsChanged {
-			r.Violation(key("layout-only-changed-imports"), det(map[string]any{"out": clip(string(y)), "before": nx.imports, "after": ny.imports}))
+			violation("layout-only-changed-imports", det(map[string]any{"out": clip(string(y)), "before": nx.imports, "after": ny.imports}))
 			return
 		}
 	} else {
 		m := buildModel(fx, e.res, e.exports)
-		if msg := m.judge(uniq(nx.imports), uniq(ny.imports)); msg != "" {
-			r.Violation(key("imports"), det(map[string]any{"out": clip(string(y)), "before": nx.imports, "after": ny.imports, "rule": msg}))
+		if kind, msg := m.judge(uniq(nx.imports), uniq(ny.imports)); kind != "" {
+			violation("imports-"+kind, det(map[string]any{"out": clip(string(y)), "before": nx.imports, "after": ny.imports, "rule": msg}))
 			return
 		}
 		switch {
@@ -648,16 +797,16 @@ func checkOne(e *env, entry, label string, src []byte, fx *ast.File, t *tally) {
 		default:
 			t.add("imports_unchanged")
 		}
-		if len(m.mustAdd) >= 2 {
+		if len(m.mustAdd) >= 2 || m.choices > 0 {
 			// several imports are added in map-iteration order: the output must not depend on it
-			for i := 0; i < 6; i++ {
+			t.add("multi_add_repeat_checked")
+			for i := 0; i < 32; i++ {
 				yy, _, _ := runFmt(e, entry, src)
 				if !bytes.Equal(yy, y) {
-					r.Violation(key("nondeterministic-output"), det(map[string]any{"out1": clip(string(y)), "out2": clip(string(yy))}))
-					return
+					violation("nondeterministic-output", det(map[string]any{"out1": clip(string(y)), "out2": clip(string(yy))}))
+					break
 				}
 			}
-			t.add("multi_add_deterministic")
 		}
 	}
 
@@ -670,7 +819,7 @@ func checkOne(e *env, entry, label string, src []byte, fx *ast.File, t *tally) {
 		case inheritedComments():
 			t.add("inherited_comment_change")
 		default:
-			r.Violation(key("comments-changed"), det(map[string]any{"out": clip(string(y)), "before": nx.comments, "after": ny.comments}))
+			violation("comments-changed", det(map[string]any{"out": clip(string(y)), "before": nx.comments, "after": ny.comments}))
 		}
 	}
 }
@@ -967,17 +1116,18 @@ func main() {
 	if r.Thorough() {
 		depth = map[string]int{"stmt": 6, "decl": 6, "expr": 6, "imp": 6}
 	} else {
-		depth = map[string]int{"stmt": 5, "decl": 5, "expr": 5, "imp": 5}
+		depth = map[string]int{"stmt": 4, "decl": 4, "expr": 4, "imp": 5}
 	}
 	for n := 0; n <= 6; n++ {
 		for _, fam := range families {
 			if n > depth[fam.name] {
 				continue
 			}
+			p0 := nParseable.Load()
 			cnt, ok := enumFamily(menv, fam, n)
 			nseq += cnt
 			if n >= 3 {
-				info = append(info, fmt.Sprintf("%s/len=%d: %d sequences complete=%v", fam.name, n, cnt, ok))
+				info = append(info, fmt.Sprintf("%s/len=%d: %d sequences, %d parse, complete=%v", fam.name, n, cnt, nParseable.Load()-p0, ok))
 			}
 			if ok && n > maxDepth {
 				maxDepth = n
@@ -985,10 +1135,11 @@ func main() {
 			exhaustive = exhaustive && ok
 		}
 		if n <= depth["imp"] {
+			p0 := nParseable.Load()
 			cnt, ok := enumImports(menv, n)
 			nseq += cnt
 			if n >= 3 {
-				info = append(info, fmt.Sprintf("imp/len=%d x %d bodies: %d sequences complete=%v", n, len(bodies), cnt, ok))
+				info = append(info, fmt.Sprintf("imp/len=%d x %d bodies: %d sequences, %d parse, complete=%v", n, len(bodies), cnt, nParseable.Load()-p0, ok))
 			}
 			exhaustive = exhaustive && ok
 		}
@@ -1004,13 +1155,20 @@ func main() {
 	}
 	var expCache atomicMap
 	fenv := &env{res: fsr, exports: func(p gnofmt.Package) map[string]bool { return expCache.get(p) }}
+	if n := os.Getenv("C54_DEBUG_NAME"); n != "" {
+		for _, c := range fsr.ResolveName(n) {
+			ex := fenv.exports(c)
+			fmt.Println("candidate", c.Path(), c.Files(), len(ex))
+		}
+		os.Exit(0)
+	}
 	corpus := loadCorpus(repo)
 	if len(corpus) < 100 {
 		r.HarnessError("corpus not found under %s", repo)
 	}
 	var sel []corpusFile
 	for i, cf := range corpus {
-		if r.Quick() && (i%16 != 0 || len(cf.src) > 2<<10) {
+		if r.Quick() && (i%32 != 0 || len(cf.src) > 2<<10) {
 			continue
 		}
 		if r.Thorough() && (i%2 != 0 || len(cf.src) > 6<<10) {
@@ -1032,6 +1190,7 @@ func main() {
 	if int(filesDone.Load()) != len(sel) {
 		exhaustive = false
 	}
+	flushClasses()
 	for i, s := range info {
 		if i < 3 {
 			r.Sample(s)
